@@ -184,7 +184,9 @@ def run(p: Program, rep: Report, tier: str) -> None:
                 data_comp = c
         okj = v[0] == "call" and v[1][0] == "attr" and v[1][2] == "join"
         if data_comp is None:
-            if okj and any(t[0] == "const" and t[1] in ("data: ", "data:", b"data: ", "data") for t in subterms(v)):
+            if any(t[0] == "call" and t[1] in (("builtin", "zip"), ("ext", "itertools.repeat"), ("ext", "itertools.starmap"), ("ext", "itertools.zip_longest"), ("ext", "itertools.product")) for t in subterms(v)):
+                rep.undecide("R19.2", f"the data lines are paired with their field name by a zip/repeat pipeline, an idiom outside the table: return {show(v)[:80]}")
+            elif okj and any(t[0] == "const" and t[1] in ("data: ", "data:", b"data: ", b"data:") for t in subterms(v)):
                 rep.violation("R19.2", construct(fn, text="data lines"), where(fn), "no 'data: <line>' lines are produced for the data field")
             elif okj and not any(has_data(t) for t in [v]):
                 rep.violation("R19.2", construct(fn, text="data lines"), where(fn), "no 'data: <line>' lines are produced for the data field")
@@ -211,6 +213,12 @@ def run(p: Program, rep: Report, tier: str) -> None:
         ch = v[2][0]
         if ch[0] == "call" and ch[1] == ("ext", "itertools.chain") and ch[2] and ch[2][-1] == ("tuple", (("const", b""), ("const", b""))):
             rep.ok("R19.2", "block = b'\\n'.join(chain(field lines, data lines, (b'', b''))) -> ends with a blank line")
+        elif ch[0] == "call" and ch[1] == ("ext", "itertools.chain") and ch[2] and ch[2][-1] == ("call", ("ext", "itertools.repeat"), (("const", b""), ("const", 2)), ()):
+            rep.ok("R19.2", "block = b'\\n'.join(chain(..., repeat(b'', 2))) -> ends with a blank line")
+        elif ch[0] == "call" and ch[1] == ("ext", "itertools.chain") and ch[2] and ch[2][-1][0] not in ("tuple", "list", "const"):
+            rep.undecide("R19.2", f"the terminator of the block is not a literal display: {show(ch[2][-1])[:60]}")
+        elif ch[0] == "gen" or (ch[0] == "call" and ch[1] != ("ext", "itertools.chain") and ch[1][0] != "builtin"):
+            rep.undecide("R19.2", f"the lines of the block come from a helper the rule does not read: {show(ch)[:60]}")
         else:
             rep.violation("R19.2", construct(fn, text=f"terminator {show(ch)[-60:]}"), where(fn), "the block does not end with the two empty elements that produce the terminating blank line")
         if ch[0] == "call" and ch[2] and ch[2][0][0] == "call" and ch[2][0][1] == ("builtin", "map"):
@@ -308,8 +316,11 @@ def run(p: Program, rep: Report, tier: str) -> None:
         for n in walk_shallow(rs.node):
             if isinstance(n, ast.Yield) and n.value is not None and isinstance(n.value, (ast.Constant, ast.Name, ast.Attribute, ast.BinOp)):
                 try:
-                    fv = F.fold(rs.module, n.value)
-                except NotConst:
+                    if isinstance(n.value, ast.Attribute) and isinstance(n.value.value, ast.Name) and n.value.value.id == "self":
+                        fv = F.class_attr(cls, n.value.attr)  # a class-level constant read through self (`ping_comment = b": ping\n\n"`)
+                    else:
+                        fv = F.fold(rs.module, n.value)
+                except (NotConst, Exception):
                     continue
                 if isinstance(fv, bytes):
                     ys.append((n, fv))
@@ -324,6 +335,17 @@ def run(p: Program, rep: Report, tier: str) -> None:
                 rep.violation("R19.3", construct(rs, text=f"ping {b!r}"), where(rs, ys[0][0]), f"{side}: the keep-alive ping {b!r} is not a ':' comment line terminated by a blank line (an EventSource would dispatch or mis-parse it)")
         # events go through build_bytes_from_sse(event, self.charset)
         bb = [c for c in calls_in(rs) if p.resolve_call(rs, c) is fn]
+        if not bb:
+            # the encoder may be reached through one method of the response (`yield self.render_event(event)`)
+            for c in calls_in(rs):
+                try:
+                    r_ = p.resolve_call(rs, c, cls)
+                except Exception:
+                    r_ = None
+                if isinstance(r_, FuncInfo) and r_.cls is not None and len(c.args) == 1:
+                    inner = [c2 for c2 in calls_in(r_) if p.resolve_call(r_, c2) is fn]
+                    if inner and len(inner[0].args) == 2 and isinstance(inner[0].args[0], ast.Name) and inner[0].args[0].id in r_.params:
+                        bb = inner
         if bb and len(bb[0].args) == 2 and ast.unparse(bb[0].args[1]) == "self.charset":
             rep.ok("R19.4", f"{side}: events are encoded by build_bytes_from_sse(event, self.charset)")
         else:
@@ -345,7 +367,8 @@ def run(p: Program, rep: Report, tier: str) -> None:
         # initialiser as headers, what is stored into its Content-Type, what self.charset becomes
         from ..collect import default_inline as _dinl
 
-        _pol = lambda fi: _dinl(fi) or (fi.cls is None and fi.parent is None and fi.module.name == "baize.responses" and not fi.is_generator())  # noqa: E731
+        _pol = lambda fi: _dinl(fi) or (fi.parent is None and fi.module.name == "baize.responses" and not fi.is_generator() and fi.name not in ("list_headers", "set_cookie", "delete_cookie", "__init__")  # noqa: E731
+                                        and all(d in ("staticmethod", "classmethod") for d in fi.decorators))
         try:
             ipaths, _ic, _ii = run_paths(p, init, cls, inline=_pol)
         except Exception as e_:
